@@ -74,8 +74,67 @@ def handler(c):
             row = stats['target_allocations'][-1]
             return ['ok', [[k, num(v)] for k, v in row.items() if k != 'Date'],
                     [[o.asset, num(o.quantity)] for o in orders], sec(row['Date'])]
+        if op == 'rebalance_seq':
+            return rebalance_seq(c)
     except Exception as e:
         return errname(e)
+
+
+def rebalance_seq(c):
+    """real SimulatedBroker + real PCM + real sizer over several rebalances with price moves"""
+    from qstrader.broker.simulated_broker import SimulatedBroker
+    from qstrader.exchange.simulated_exchange import SimulatedExchange
+    from qstrader.execution.order import Order
+    rows = []
+    for r in c['rounds']:
+        for a, p in r['close']:
+            rows.append([r['t_close'], a, p, p])
+        for a, p in r['open']:
+            rows.append([r['t_open'], a, p, p])
+    for a, p in c['seed_prices']:
+        rows.append([c['t_seed'], a, p, p])
+    dh = StubDataHandler(rows)
+    start = ts(c['start'])
+    broker = SimulatedBroker(start, SimulatedExchange(start), dh, initial_funds=c['funds'], fee_model=mk_fee(c['fee']))
+    broker.create_portfolio('p', 'n')
+    broker.subscribe_funds_to_portfolio('p', c['funds'])
+    # seed arbitrary holdings (long, short, assets outside any later universe)
+    for a, q in c['seed']:
+        broker.submit_order('p', Order(start, a, q))
+    broker.update(ts(c['t_seed']))
+    out = []
+    for r in c['rounds']:
+        t = ts(r['t_close'])
+        broker.update(t)
+        held = [[a, num(v['quantity'])] for a, v in broker.get_portfolio_as_dict('p').items()]
+        equity = num(broker.get_portfolio_total_equity('p'))
+        if c['kind'] == 'long_only':
+            sizer = DollarWeightedCashBufferedOrderSizer(broker, 'p', dh, cash_buffer_percentage=c['param'])
+        else:
+            sizer = LongShortLeveragedOrderSizer(broker, 'p', dh, gross_leverage=c['param'])
+        pcm = PortfolioConstructionModel(broker, 'p', StaticUniverse(list(r['universe'])), sizer,
+                                         FixedWeightPortfolioOptimiser(),
+                                         alpha_model=FixedSignalsAlphaModel(dict((a, w) for a, w in r['alpha'])))
+        stats = {'target_allocations': []}
+        try:
+            orders = pcm(t, stats=stats)
+        except Exception as e:
+            out.append({'held': held, 'equity': equity, 'err': type(e).__name__})
+            break
+        row = stats['target_allocations'][-1]
+        alloc = [[k, num(v)] for k, v in row.items() if k != 'Date']
+        try:
+            target = [[a, num(v['quantity'])] for a, v in sizer(t, dict((k, v) for k, v in row.items() if k != 'Date')).items()]
+        except Exception as e:
+            target = ['err', type(e).__name__]
+        olist = [[o.asset, num(o.quantity)] for o in orders]
+        for o in orders:
+            broker.submit_order('p', o)
+        broker.update(ts(r['t_open']))
+        after = [[a, num(v['quantity'])] for a, v in broker.get_portfolio_as_dict('p').items()]
+        out.append({'held': held, 'equity': equity, 'alloc': alloc, 'orders': olist, 'target': target, 'after': after,
+                    'date': sec(row['Date'])})
+    return ['ok', out]
 
 
 if __name__ == '__main__':
